@@ -42,7 +42,10 @@ pub fn ev_ok(pos: i64, m: &[u8]) -> Ev {
 }
 
 pub fn quiet_panics() {
-    std::panic::set_hook(Box::new(|_| {}));
+    // panics of the code under test are data (recorded as events); VF_LOUD=1 keeps the default hook for debugging the harness
+    if std::env::var("VF_LOUD").is_err() {
+        std::panic::set_hook(Box::new(|_| {}));
+    }
 }
 
 /// Push decoder driven by ops (bytes, 256 finalize, 257 reset). If `fin_at_end`, a finalize() is appended.
